@@ -202,3 +202,16 @@ def LShR(a, k):
     if is_bv(a):
         return z3.LShR(a, k)
     return a >> k
+
+
+def IsSlice(result, src, start, k):
+    """result is exactly src[start : start+k] (k >= 0); src/result may be array-backed views or concrete bytes"""
+    if hasattr(result, 'arr') and hasattr(src, 'arr'):
+        same = z3.eq(result.arr, src.arr)
+        if not same:
+            return False
+        return And(result.length == k, Or(k == 0, result.off == src.off + start))
+    if hasattr(src, 'arr'):
+        # a concrete result against a symbolic source: only the empty string is decidable here
+        return And(len(result) == 0, k == 0)
+    return bytes(result) == bytes(src)[start:start + k] and len(result) == k
